@@ -1,5 +1,6 @@
 (* C16 - IMP conversion is the official scale, odd and monotone, for every difference. *)
-From BE Require Import Model.Score Spec.Duplicate Gen.ScoreConsts Gen.ScoreFns Proofs.C16 Proofs.ScoreGen Proofs.ScoreGenCor.
+From BE Require Import Model.Score Spec.Duplicate Gen.ScoreFns Proofs.C16 Proofs.ScoreGen Proofs.ScoreGenCor Proofs.ScoreConstsPin.
+From BE Require Gen.ScoreConsts Model.ScoreConstsHand.
 Open Scope Z_scope.
 
 Theorem C16_tuple_is_official_scale : k_imps_list = official_imp_bounds.
@@ -43,3 +44,31 @@ Proof. exact g_imps_odd. Qed.
 Theorem C16_two_scores_generated : forall a b, g_score_to_imp a b = official_imps (a + b).
 Proof. exact g_two_scores. Qed.
 Print Assumptions C16_two_scores_generated.
+
+(* every number of score.py, re-read from the source on this run, is the number the model uses *)
+Theorem C16_source_constants_are_the_modelled_ones :
+  Gen.ScoreConsts.k_minor = Model.ScoreConstsHand.k_minor /\
+  Gen.ScoreConsts.k_major = Model.ScoreConstsHand.k_major /\
+  Gen.ScoreConsts.k_nt = Model.ScoreConstsHand.k_nt /\
+  Gen.ScoreConsts.k_make = Model.ScoreConstsHand.k_make /\
+  Gen.ScoreConsts.k_make_x = Model.ScoreConstsHand.k_make_x /\
+  Gen.ScoreConsts.k_make_xx = Model.ScoreConstsHand.k_make_xx /\
+  Gen.ScoreConsts.k_game = Model.ScoreConstsHand.k_game /\
+  Gen.ScoreConsts.k_game_vul = Model.ScoreConstsHand.k_game_vul /\
+  Gen.ScoreConsts.k_small_slam = Model.ScoreConstsHand.k_small_slam /\
+  Gen.ScoreConsts.k_small_slam_vul = Model.ScoreConstsHand.k_small_slam_vul /\
+  Gen.ScoreConsts.k_grand_slam = Model.ScoreConstsHand.k_grand_slam /\
+  Gen.ScoreConsts.k_grand_slam_vul = Model.ScoreConstsHand.k_grand_slam_vul /\
+  Gen.ScoreConsts.k_overtrick_x = Model.ScoreConstsHand.k_overtrick_x /\
+  Gen.ScoreConsts.k_overtrick_x_vul = Model.ScoreConstsHand.k_overtrick_x_vul /\
+  Gen.ScoreConsts.k_overtrick_xx = Model.ScoreConstsHand.k_overtrick_xx /\
+  Gen.ScoreConsts.k_overtrick_xx_vul = Model.ScoreConstsHand.k_overtrick_xx_vul /\
+  Gen.ScoreConsts.k_down = Model.ScoreConstsHand.k_down /\
+  Gen.ScoreConsts.k_down_vul = Model.ScoreConstsHand.k_down_vul /\
+  Gen.ScoreConsts.k_down_x = Model.ScoreConstsHand.k_down_x /\
+  Gen.ScoreConsts.k_down_x_vul = Model.ScoreConstsHand.k_down_x_vul /\
+  Gen.ScoreConsts.k_down_xx = Model.ScoreConstsHand.k_down_xx /\
+  Gen.ScoreConsts.k_down_xx_vul = Model.ScoreConstsHand.k_down_xx_vul /\
+  Gen.ScoreConsts.k_imps_list = Model.ScoreConstsHand.k_imps_list.
+Proof. exact score_constants_pinned. Qed.
+Print Assumptions C16_source_constants_are_the_modelled_ones.
